@@ -29,3 +29,10 @@ H("C19", "css/counters", "VxH_C19_alphabetic", reach=["rendered"], bounds="base 
 H("C19", "css/counters", "VxH_C19_symbolic", reach=["rendered"], bounds="n in 1..3; value in [1, 4n]")
 H("C19", "css/counters", "VxH_C19_range_low", reach=["rendered"], bounds="symbolic/alphabetic with value in [-40, 0]")
 H("C19", "css/counters", "VxH_C19_additive", reach=["additive-representation", "additive-fallback"], bounds="two weights 0 <= w1 < w0 <= 12, value in [0,24] (int mode)")
+
+CLAIMS = {}
+CLAIMS["C19"] = {
+    "text": "Every feasible path of CounterStyle.RenderValue and the six system algorithms (repeating, nonRepeating, symbolic, alphabetic, numeric, additive) is explored for symbolic counter values and symbol-list sizes within the stated bounds; on each path the SMT solver shows that no panic is reachable and that the rendered string equals the Counter Styles definition. Says nothing outside the bounds.",
+    "design_ref": "DESIGN.md section 4 C19",
+    "note": "Trusted: the symgo interpreter (validated per run by native replay of path models), z3 4.8.12, the native models of strings.Repeat/Join/Builder. Assumes one-byte symbols, <=4 symbols, value ranges per harness (see evidence bounds). Counter scoping in box building is not covered.",
+}
